@@ -430,6 +430,13 @@ func (c *clientFile) writeAt(p []byte, offset int64) (int, error) {
 		return 0, err
 	}
 
+	// A server cannot have written more than it was sent. Fail the write
+	// instead of reporting a count larger than len(p), on which chunk
+	// panics.
+	if int64(rwrite.Count) > int64(len(p)) {
+		return 0, linux.EIO
+	}
+
 	return int(rwrite.Count), nil
 }
 
